@@ -217,6 +217,20 @@ action noapply in [grp];
             ['conds', ['unless', ['access', ['var', 'context'], S('flag')]]], ['conds', ['when', ['gt', ['access', ['var', 'context'], S('n')], lit(gen.vlong(0))]]],
             ['conds', ['when', ['gt', ['access', ['var', 'principal'], S('age')], lit(gen.vlong(0))]]], ['conds', ['when', lit(gen.vlong(1))]],
             ['conds', ['when', ['and', ['has', ['var', 'principal'], S('age')], ['gt', ['access', ['var', 'principal'], S('age')], lit(gen.vlong(0))]]], ['when', ['in', ['var', 'action'], lit(E('Action', 'grp'))]]]]
+    # the same scope matrix through the soundness oracle: accepted policies evaluated on conforming data
+    st3 = ['store', ['ent', E('Group', 'g'), ['parents'], ['attrs'], ['tags']], ['ent', E('Team', 't'), ['parents', E('Group', 'g')], ['attrs'], ['tags']],
+           ['ent', E('User', 'a'), ['parents', E('Team', 't')], ['attrs', [S('age'), gen.vlong(3)]], ['tags', [S('k'), gen.vstr('v')]]],
+           ['ent', E('User', 'b'), ['parents'], ['attrs'], ['tags']]]
+    envs3 = ['envs', ['env', st3, ['req', E('User', 'a'), E('Action', 'view'), E('User', 'b'), gen.vrec([('flag', gen.vbool(True))])]],
+             ['env', st3, ['req', E('User', 'b'), E('Action', 'view'), E('Group', 'g'), gen.vrec([('flag', gen.vbool(False))])]],
+             ['env', st3, ['req', E('Group', 'g'), E('Action', 'edit'), E('Group', 'g'), gen.vrec([('flag', gen.vbool(True)), ('n', gen.vlong(1))])]],
+             ['env', ['store'], ['req', E('User', 'zz'), E('Action', 'view'), E('User', 'zz'), gen.vrec([('flag', gen.vbool(True))])]]]
+    combos3 = [(ps_, as_, rs_, cn) for ps_ in pscopes for as_ in ascopes for rs_ in pscopes for cn in cnds]
+    for (ps_, as_, rs_, cn) in r.sample(combos3, 500 if quick else 8000):
+        for mode in ('strict', 'permissive'):
+            n += 1
+            pol = ['policy', S('p'), 'permit', ps_, as_, rs_, cn, ['annots']]
+            cases.append('(case v%d validate %s %s %s %s)' % (n, S(fixed3), mode, sx.dump(pol), sx.dump(envs3)))
     wi = 0
     if inf3.startswith('(info '):
         combos = [(ps_, as_, rs_, cn) for ps_ in pscopes for as_ in ascopes for rs_ in pscopes for cn in cnds]
